@@ -259,6 +259,7 @@ func (op *ShellOperator) initValidatingWebhookManager() error {
 				slog.String("webhookID", event.WebhookId))
 			return nil, fmt.Errorf("no hook found for '%s' '%s'", event.ConfigurationId, event.WebhookId)
 		}
+		verifsched.Point("admission.taskBuilt", "admission/"+string(event.Request.UID))
 
 		res := op.taskHandler(admissionTask)
 
